@@ -72,12 +72,19 @@ type mtx struct {
 type node struct {
 	chain  [][]mtx // chain[h-1] = transactions of block h
 	latest uint64
+	script []uint64 // relay suite: the height reported by successive /status calls (the last one stays)
 }
 
 func (n *node) handler(w http.ResponseWriter, r *http.Request) {
 	w.Header().Set("Content-Type", "application/json")
 	switch {
 	case strings.HasSuffix(r.URL.Path, "/status"):
+		if len(n.script) > 0 {
+			n.latest = n.script[0]
+			if len(n.script) > 1 {
+				n.script = n.script[1:]
+			}
+		}
 		fmt.Fprintf(w, `{"version":"x","network":"x","latest_block_hash":"","latest_app_hash":"","latest_block_height":"%d","latest_block_time":"2021-01-01T00:00:00Z","keep_last_states":"0","total_slashed":"0","catching_up":false,"public_key":"","node_id":"","initial_height":"1"}`, n.latest)
 	case strings.HasSuffix(r.URL.Path, "/blocks"):
 		from, _ := strconv.ParseUint(r.URL.Query().Get("from_height"), 10, 64)
@@ -427,6 +434,9 @@ func main() {
 		case "cmd":
 			c, out := runCmdCase(s, stats)
 			fmt.Fprintf(w, "cmd\t%s\t%s\n", Str(c), Str(out))
+		case "relay":
+			c, out := runRelayCase(s, dir, stats)
+			fmt.Fprintf(w, "relay\t%s\t%s\n", Str(c), Str(out))
 		default:
 			fmt.Fprintln(os.Stderr, "unknown suite", suite)
 			os.Exit(2)
